@@ -399,3 +399,160 @@ SyncSerialConnect = _connect_contract("mysensors.gateway_serial:sync_connect", "
 SyncTcpConnect = _connect_contract("mysensors.gateway_tcp:sync_connect", "mysensors.gateway_tcp", "sync_connect", "sync-tcp", False)
 AsyncSerialConnect = _connect_contract("mysensors.gateway_serial:async_connect", "mysensors.gateway_serial", "async_connect", "async-serial", True)
 AsyncTcpConnect = _connect_contract("mysensors.gateway_tcp:async_connect", "mysensors.gateway_tcp", "async_connect", "async-tcp", True)
+
+
+# ------------------------------------------------------------------------------------------- watchdog schedule
+def _watchdog_two_probes(gw):
+    """connect; the reader loop calls check_connection on every iteration; two probes, each answered within
+    reconnect_timeout; a further iteration falls between the deadline and the second answer"""
+    gw.check_connection()  # iteration 1: sends probe 1
+    gw._handle_i_version(None)  # answer to probe 1 (arrives within reconnect_timeout)
+    gw.check_connection()  # iteration 2: sends probe 2
+    gw.check_connection()  # iteration 3: before the answer to probe 2 has arrived
+    gw._handle_i_version(None)  # answer to probe 2 (also within reconnect_timeout)
+    return gw
+
+
+@contract("mysensors.gateway_tcp:BaseTCPGateway.check_connection", props=["C20"], name="watchdog.answered-link-not-dropped")
+class WatchdogAnswered:
+    """A link whose gateway answers every version probe within the reconnect timeout is never dropped -
+    checked on the real check_connection/_handle_i_version over a symbolic clock (threaded flavour: the
+    reader loop calls check_connection every iteration)."""
+
+    lemma = True
+    params = ["gw"]
+    body = _watchdog_two_probes
+
+    def setup(h):
+        import time as _t
+
+        gw, log = _tcp_gateway(h)
+        ctx = h.ctx
+        rt = h.it.env["rt"].term
+        t0 = ctx.fresh_term(z3.RealSort(), "t_connect")
+        gw.fields["tcp_check_timer"] = ops_mk_real(t0)
+        gw.fields["tcp_disconnect_timer"] = ops_mk_real(t0)
+        # the scripted clock: times of the events in order (each event may read the clock several times;
+        # all reads within one event return that event's time)
+        names = ["iter1", "answer1", "iter2", "iter3", "answer2"]
+        times = [ctx.fresh_term(z3.RealSort(), "t_" + n) for n in names]
+        delta = ctx.fresh_term(z3.RealSort(), "loop_period")
+        ctx.add_fact(z3.And(delta > 0, delta < rt))
+        ctx.add_fact(times[0] > t0 + rt)  # first iteration at which a probe is due ...
+        ctx.add_fact(times[0] <= t0 + rt + delta)  # ... which the loop reaches within one period
+        ctx.add_fact(times[2] <= times[0] + rt + delta)
+        for a, b in zip(times, times[1:]):
+            ctx.add_fact(a <= b)
+        # every probe is answered within the reconnect timeout of being sent
+        ctx.add_fact(times[1] - times[0] <= rt)
+        ctx.add_fact(times[4] - times[2] <= rt)
+        ctx.add_fact(times[2] > times[0] + rt)  # probe 2 is due at iteration 2
+        state = {"event": 0, "reads": 0}
+        h.it.env["times"] = times
+
+        def m_time(it, a, k):
+            return ops_mk_real(times[state["event"]])
+
+        h.it.models[id(_t.time)] = ModelFn("time.time", m_time)
+
+        def after(it, args, rv):
+            state["event"] += 1
+
+        h.it.post_hooks[("mysensors.gateway_tcp", "BaseTCPGateway.check_connection")] = after
+        h.it.post_hooks[("mysensors.gateway_tcp", "BaseTCPGateway._handle_i_version")] = after
+        return [gw], {}
+
+    raises = {}  # no OSError: the link is not dropped
+    ensures = {"alive": lambda old, gw, result: True}
+
+
+def ops_mk_real(t):
+    from pyvc.core import SV
+
+    return SV("real", t)
+
+
+# ------------------------------------------------------------------------------------------- the reconnect hooks
+# The protocol contracts above treat `conn_lost_callback` as "start a reconnect"; these two contracts are on
+# the real callbacks the transports install there, in every state the transport can be in when a loss is
+# reported: never lost before, or already reconnected once (an earlier reconnect task/thread exists).
+def _lose(tr):
+    tr.protocol.conn_lost_callback()
+    return tr
+
+
+def reconnect_started_once():
+    return True
+
+
+def _reconnect_env(h, cls):
+    it = h.it
+    log = []
+    h.ctx.ghost["reconnectlog"] = log
+    gw = Modelled("gateway")
+    connect_fn = ModelFn("gateway-connect", lambda it2, a, k: log.append(("connect-ran", a[0])))
+
+    class _Proto:  # stands for the protocol object the transport creates; records the callback it was given
+        pass
+
+    def proto_ctor(it2, a, k):
+        p = Modelled("protocol")
+        p.attrs.update(gateway=a[0], conn_lost_callback=a[1], transport=None)
+        return p
+
+    it.models[id(TR.BaseMySensorsProtocol)] = ModelFn("BaseMySensorsProtocol", proto_ctor)
+    it.models[id(TR.AsyncMySensorsProtocol)] = ModelFn("AsyncMySensorsProtocol", proto_ctor)
+
+    def thread_ctor(it2, a, k):
+        t = Modelled("thread")
+        target, targs = k.get("target"), k.get("args", ())
+
+        def start(it3, aa, kk):
+            log.append(("started",))
+            it3.call(target, list(targs), {})  # what the thread then runs
+
+        t.attrs["start"] = ModelFn("Thread.start", start)
+        return t
+
+    it.models[id(threading.Thread)] = ModelFn("threading.Thread", thread_ctor)
+    loop = Modelled("loop")
+
+    def create_task(it2, a, k):
+        log.append(("started",))
+        it2.run_coro(a[0])  # what the task then runs
+        return Modelled("task")
+
+    loop.attrs["create_task"] = ModelFn("loop.create_task", create_task)
+    it.models[id(asyncio.get_running_loop)] = ModelFn("get_running_loop", lambda it2, a, k: loop)
+    tr = it.call(cls, [gw, connect_fn], {})
+    for _ in range(h.config["earlier_losses"]):
+        it.call(it.getattr(it.getattr(tr, "protocol"), "conn_lost_callback"), [], {})
+    del log[:]
+
+    def ok(it2, a, k):
+        return log == [("started",), ("connect-ran", tr)]
+
+    it.models[id(reconnect_started_once)] = ModelFn("reconnect_started_once", ok)
+    return tr
+
+
+import threading
+
+
+def _reconnect_contract(cls, name):
+    ns = dict(
+        lemma=True,
+        params=["tr"],
+        body=_lose,
+        configs=[{"earlier_losses": n} for n in (0, 1, 2)],
+        setup=lambda h: ([_reconnect_env(h, cls)], {}),
+        raises={},
+        # every reported loss starts exactly one reconnect, which runs the gateway's connect routine on this transport
+        ensures={"reconnect-started": lambda old, tr, result: reconnect_started_once()},
+    )
+    target = f"mysensors.transport:{cls.__name__}.__init__"
+    return contract(target, props=["C20"], name=name)(type(name.replace("[", "_").replace("]", "").replace("-", "_"), (), ns))
+
+
+ReconnectSync = _reconnect_contract(TR.SyncTransport, "reconnect-hook[threaded]")
+ReconnectAsync = _reconnect_contract(TR.AsyncTransport, "reconnect-hook[async]")
